@@ -484,17 +484,23 @@ Section Tbl.
       | [] => Qc_of_Z 1
       end.
 
-    Definition h3_group (g : list ufactor) : res_t (unit * T) :=
+    (* the target unit of one sort-key group *)
+    Definition h3_target (g : list ufactor) : option unit :=
       match g with
-      | [] => Err Panic                       (* "At least one unit factor in the group" *)
+      | [] => None                            (* "At least one unit factor in the group" *)
       | g0 :: grest =>
           let rep := max_by_last g0 grest in
-          let target :=
-            if is_scalar (fst (to_base res g)) then []
-            else
-              let e := fold_left (fun s f => (s + f_exp f * removed_exponent f / removed_exponent rep)%Qc)
-                                 g 0%Qc in
-              [mkF (f_uid rep) (f_pfx rep) e] in
+          Some (if is_scalar (fst (to_base res g)) then []
+                else
+                  let e := fold_left (fun s f => (s + f_exp f * removed_exponent f / removed_exponent rep)%Qc)
+                                     g 0%Qc in
+                  [mkF (f_uid rep) (f_pfx rep) e])
+      end.
+
+    Definition h3_group (g : list ufactor) : res_t (unit * T) :=
+      match h3_target g with
+      | None => Err Panic
+      | Some target =>
           match convert_to (from_unit g) target with
           | Ok c => Ok (target, q_val c)
           | Err _ => Err Panic                (* .unwrap() *)
